@@ -304,6 +304,17 @@ func OpenEdgesGood(tris [][3]model3d.Coord3D) map[[2]model3d.Coord3D]int {
 	return res
 }
 
+// clean:CYCLE the range form of the same scan.
+func OpenEdgesRange(tris [][3]model3d.Coord3D) map[[2]model3d.Coord3D]int {
+	res := map[[2]model3d.Coord3D]int{}
+	for _, t := range tris {
+		for i, start := range t {
+			res[[2]model3d.Coord3D{start, t[(i+1)%len(t)]}]++
+		}
+	}
+	return res
+}
+
 // want:EDGETABLE the closing edge runs the wrong way.
 func DirectedEdgesBad(t *model3d.Triangle) [3][2]model3d.Coord3D {
 	return [3][2]model3d.Coord3D{{t[0], t[1]}, {t[1], t[2]}, {t[0], t[2]}}
